@@ -6,11 +6,12 @@ Each is an exact-substring replacement in a scratch copy of /repo/fuzzylite (nev
 M = []
 
 
-def mut(id, pids, file, old, new, note="", extra=None, benign=False):
+def mut(id, pids, file, old, new, note="", extra=None, benign=False, needle=0):
     """extra: optional list of further (old, new) replacements in the same file.
-    benign=True marks a behaviour-preserving control: the check must stay silent on it."""
+    benign=True marks a behaviour-preserving control: the check must stay silent on it.
+    needle=N marks a mutant whose trigger is rare by nature: the quick check is tried on seeds 0..N-1 until it reports."""
     M.append({"id": id, "pids": pids if isinstance(pids, list) else [pids], "file": file, "old": old, "new": new, "note": note,
-              "extra": extra or [], "benign": benign})
+              "extra": extra or [], "benign": benign, "needle": needle})
 
 
 # ---------------------------------------------------------------- C20
@@ -337,3 +338,6 @@ mut("d6_revert_constant_dtype", "C02", "term.py", "        y = np.full_like(x, f
     "        y = np.full_like(x, fill_value=self.value)\n        return y", "defect D6 as found at the pinned commit")
 mut("d4_revert_output_values", "C02", "engine.py", "        result = np.column_stack(np.broadcast_arrays(*values)) if values else np.array(values)\n        return result\n\n    @property\n    def values(self)",
     "        result = np.column_stack(values) if values else np.array(values)\n        return result\n\n    @property\n    def values(self)", "defect D4 as found at the pinned commit")
+mut("d7_revert_hedge_pow", "C02", "hedge.py", "        y = np.where(x <= 0.5, 2 * np.square(x), 1 - 2 * np.square(1 - x))",
+    "        y = np.where(x <= 0.5, 2 * x**2, 1 - 2 * (1 - x) ** 2)",
+    "defect D7 (Extremely only) as found at the pinned commit: a needle (about one quick run in three shows it), expected to be caught by the thorough tier or a seed sweep rather than by every quick run", needle=8)
